@@ -12,12 +12,16 @@
 //           A<i>   block announce: unreadyBlocks.newIncompleteBlock(header i)
 //           K<i>   the block state already has header i
 //           F<n>   the highest finalised number becomes n
+//           M<who>.<i>.<best>   FullSyncStrategy.OnBlockAnnounce(peer <who>, announce of header i)
+//                  while BestBlockHeader() has number <best> (not paused, not flagged best block)
 //           P<r>+<r>+...   FullSyncStrategy.Process(results); a result <r> is
 //                  <who>:<completed 0|1>:<requested fields>:<direction>:<blocks>
 //                  <blocks> "-" or ','-separated `S/H/f`: stated hash S (header id, or u<k> = a hash
 //                  of no header), header H (id or "-" for nil), f: 1 body present,
 //                  2 non-empty justification, 4 empty non-nil justification
-// observed: one entry per step, '|'-separated; A/K/F give "."; P gives
+// observed: one entry per step, '|'-separated; A/K/F give "."; M gives
+//   m;<reputation change>;<incomplete>;<queue>   (reputation change "-" when none is returned;
+//   code 4 bad block announcement + errBadBlockReceived, 5 not relevant, 6 gossip success); P gives
 //   <status>;<events>;<reputation changes>;<bans>;<incomplete>;<disjoint>;<queue>;<accepted>
 //   (after a panic only <status>;<events>;<accepted>; the history stops there)
 //   status  ok | err | panic
@@ -27,7 +31,11 @@
 //           o<S> refused: parent unknown, d<S> refused: header hash already known,
 //           n<S> nothing to import (no header or no body), f<S> finalised
 //   reputation changes  <who>.<code>  1 incomplete header, 2 bad block, 3 bad message, 9 other
-//   incomplete  sorted ids;  disjoint  fragments joined by '+', blocks by '.';  queue  parent ids
+//           (9 also when the value does not belong to the reason)
+//   incomplete  sorted ids;  disjoint  fragments joined by '+', blocks by '.';
+//   queue  <id> = ancestor search descending from that hash (max 128, bootstrap fields),
+//          ~<id> = body request for an announced block (ascending from the hash, max 1, body +
+//          justification), "bad" = anything else
 package sync
 
 import (
@@ -36,6 +44,7 @@ import (
 	"strings"
 	"testing"
 
+	"github.com/ChainSafe/gossamer/dot/network"
 	"github.com/ChainSafe/gossamer/dot/network/messages"
 	"github.com/ChainSafe/gossamer/dot/peerset"
 	"github.com/ChainSafe/gossamer/dot/types"
@@ -48,6 +57,12 @@ type c32State struct {
 	BlockState // nil: any other method panics
 	known      map[common.Hash]bool
 	finalised  uint
+	best       uint
+}
+
+func (s *c32State) IsPaused() bool { return false }
+func (s *c32State) BestBlockHeader() (*types.Header, error) {
+	return &types.Header{Number: s.best}, nil
 }
 
 func (s *c32State) HasHeader(h common.Hash) (bool, error) { return s.known[h], nil }
@@ -187,15 +202,91 @@ func (w *c32World) parseBlocks(s string) []*types.BlockData {
 }
 
 func c32RepCode(c peerset.ReputationChange) string {
-	switch c.Reason {
-	case peerset.IncompleteHeaderReason:
+	switch {
+	case c.Reason == peerset.IncompleteHeaderReason && c.Value == peerset.IncompleteHeaderValue:
 		return "1"
-	case peerset.BadBlockAnnouncementReason:
+	case c.Reason == peerset.BadBlockAnnouncementReason && c.Value == peerset.BadBlockAnnouncementValue:
 		return "2"
-	case peerset.BadMessageReason:
+	case c.Reason == peerset.BadMessageReason && c.Value == peerset.BadMessageValue:
 		return "3"
 	}
 	return "9"
+}
+
+// the reputation change OnBlockAnnounce returns
+func c32AnnounceCode(c *Change, err error) string {
+	if c == nil {
+		if err != nil {
+			return "err"
+		}
+		return "-"
+	}
+	who := strings.TrimPrefix(string(c.who), "p")
+	switch {
+	case err == errBadBlockReceived && c.rep.Reason == peerset.BadBlockAnnouncementReason &&
+		c.rep.Value == peerset.BadBlockAnnouncementValue:
+		return who + ".4"
+	case err == nil && c.rep.Reason == peerset.NotRelevantBlockAnnounceReason &&
+		c.rep.Value == peerset.NotRelevantBlockAnnounceValue:
+		return who + ".5"
+	case err == nil && c.rep.Reason == peerset.GossipSuccessReason && c.rep.Value == peerset.GossipSuccessValue:
+		return who + ".6"
+	}
+	return who + ".9"
+}
+
+func (w *c32World) incompleteAndQueue(f *FullSyncStrategy) (string, string) {
+	var inc, q []string
+	for h := range f.unreadyBlocks.incompleteBlocks {
+		inc = append(inc, w.name(h))
+	}
+	sort.Strings(inc)
+	for e := f.requestQueue.queue.Front(); e != nil; e = e.Next() {
+		r := e.Value.(*messages.BlockRequestMessage)
+		h, ok := r.StartingBlock.RawValue().(common.Hash)
+		switch {
+		case ok && r.Direction == messages.Descending && r.Max != nil && *r.Max == messages.MaxBlocksInResponse &&
+			r.RequestedData == messages.BootstrapRequestData:
+			q = append(q, w.name(h))
+		case ok && r.Direction == messages.Ascending && r.Max != nil && *r.Max == 1 &&
+			r.RequestedData == messages.RequestedDataBody+messages.RequestedDataJustification:
+			q = append(q, "~"+w.name(h))
+		default:
+			q = append(q, "bad")
+		}
+	}
+	return c32Join(inc, ","), c32Join(q, ",")
+}
+
+func (w *c32World) announce(f *FullSyncStrategy, arg string) (out string, panicked bool) {
+	p := strings.Split(arg, ".")
+	src := w.headers[vu.UnX(p[1])]
+	w.st.best = uint(vu.UnX(p[2]))
+	msg := &network.BlockAnnounceMessage{
+		ParentHash:     src.ParentHash,
+		Number:         src.Number,
+		StateRoot:      src.StateRoot,
+		ExtrinsicsRoot: src.ExtrinsicsRoot,
+		Digest:         src.Digest,
+		BestBlock:      false,
+	}
+	var (
+		rep *Change
+		err error
+	)
+	func() {
+		defer func() {
+			if r := recover(); r != nil {
+				panicked = true
+			}
+		}()
+		rep, err = f.OnBlockAnnounce(peer.ID("p"+p[0]), msg)
+	}()
+	if panicked {
+		return "panic", true
+	}
+	inc, q := w.incompleteAndQueue(f)
+	return "m;" + c32AnnounceCode(rep, err) + ";" + inc + ";" + q, false
 }
 
 func c32Join(xs []string, sep string) string {
@@ -277,17 +368,13 @@ func (w *c32World) process(f *FullSyncStrategy, bad []string, spec string) (out 
 	if err != nil {
 		status = "err"
 	}
-	var rs, bs, inc, dis, q []string
+	var rs, bs, dis []string
 	for _, c := range reps {
 		rs = append(rs, strings.TrimPrefix(string(c.who), "p")+"."+c32RepCode(c.rep))
 	}
 	for _, b := range bans {
 		bs = append(bs, strings.TrimPrefix(string(b), "p"))
 	}
-	for h := range f.unreadyBlocks.incompleteBlocks {
-		inc = append(inc, w.name(h))
-	}
-	sort.Strings(inc)
 	for _, frag := range f.unreadyBlocks.disjointFragments {
 		var ids []string
 		for _, b := range frag {
@@ -295,17 +382,9 @@ func (w *c32World) process(f *FullSyncStrategy, bad []string, spec string) (out 
 		}
 		dis = append(dis, c32Join(ids, "."))
 	}
-	for e := f.requestQueue.queue.Front(); e != nil; e = e.Next() {
-		r := e.Value.(*messages.BlockRequestMessage)
-		if h, ok := r.StartingBlock.RawValue().(common.Hash); ok && r.Direction == messages.Descending &&
-			r.Max != nil && *r.Max == messages.MaxBlocksInResponse && r.RequestedData == messages.BootstrapRequestData {
-			q = append(q, w.name(h))
-		} else {
-			q = append(q, "bad")
-		}
-	}
+	inc, q := w.incompleteAndQueue(f)
 	return strings.Join([]string{status, c32Join(w.events, ","), c32Join(rs, ","), c32Join(bs, ","),
-		c32Join(inc, ","), c32Join(dis, "+"), c32Join(q, ","), acc}, ";"), false
+		inc, c32Join(dis, "+"), q, acc}, ";"), false
 }
 
 func c32Run(in string) string {
@@ -336,6 +415,12 @@ func c32Run(in string) string {
 		case 'F':
 			w.st.finalised = uint(vu.UnX(step[1:]))
 			obs = append(obs, ".")
+		case 'M':
+			o, panicked := w.announce(f, step[1:])
+			obs = append(obs, o)
+			if panicked {
+				return strings.Join(obs, "|")
+			}
 		case 'P':
 			o, panicked := w.process(f, bad, step[1:])
 			obs = append(obs, o)
@@ -502,10 +587,22 @@ func c32GenCase(r *vu.RNG) string {
 	nproc := r.Range(1, 3)
 	for pc := 0; pc < nproc; pc++ {
 		var announced []int
-		if r.Chance(1, 3) {
+		if r.Chance(2, 5) {
 			for k := r.Range(1, 3); k > 0; k-- {
 				id := r.Range(1, len(g.number)-1)
 				announced = append(announced, id)
+				if r.Chance(1, 2) {
+					// through OnBlockAnnounce: best number near the block, sometimes > 128 away
+					best := uint64(r.Intn(int(g.number[id]) + 3))
+					if r.Chance(1, 8) {
+						best = g.number[id] + uint64(r.Range(127, 131))
+					}
+					steps = append(steps, fmt.Sprintf("M%x.%x.%x", r.Intn(3), id, best))
+					if r.Chance(1, 6) { // announced twice: already tracked
+						steps = append(steps, fmt.Sprintf("M%x.%x.%x", r.Intn(3), id, best))
+					}
+					continue
+				}
 				steps = append(steps, fmt.Sprintf("A%x", id))
 			}
 		}
@@ -690,8 +787,13 @@ func c32GenBatch(r *vu.RNG) string {
 			ann[i], ann[j] = ann[j], ann[i]
 		}
 	}
+	viaMsg := r.Chance(1, 3) // through OnBlockAnnounce, best block = the known prefix
 	for _, id := range ann {
-		steps = append(steps, fmt.Sprintf("A%x", id))
+		if viaMsg {
+			steps = append(steps, fmt.Sprintf("M%x.%x.%x", r.Intn(3), id, k))
+		} else {
+			steps = append(steps, fmt.Sprintf("A%x", id))
+		}
 	}
 	body := func(ids []int) string {
 		var bl []string
@@ -729,10 +831,6 @@ func c32GenBatch(r *vu.RNG) string {
 }
 
 func c32GenAll(r *vu.RNG, n int, emit func(string)) {
-	// vu.NewRNG(seed) starts seed k+1 one draw behind seed k on the same splitmix64 sequence, so
-	// generators of consecutive seeds fall into step after a few cases; a forked generator
-	// (state = a mixed output) gives unrelated sequences for different seeds
-	r = r.Fork()
 	if vu.Thorough() {
 		c32Exhaustive(6, emit)
 	} else {
